@@ -191,6 +191,25 @@ Theorem C14_recased_decls_same : forall ins ins' outs outs' m m',
 Proof. exact recased_decls_same. Qed.
 Print Assumptions C14_recased_decls_same.
 
+Theorem C14_calls_recase_wf_call : forall m with_ with_' sec c n,
+  wf_names (map fst with_) -> map lower_key with_ = map lower_key with_' ->
+  In (c, n) (check_workflow_call m (parse_wcall with_ sec) ++ check_workflow_call_types (Some m) (parse_wcall with_ sec)) ->
+  exists n', lower n' = lower n /\
+    In (c, n') (check_workflow_call m (parse_wcall with_' sec) ++ check_workflow_call_types (Some m) (parse_wcall with_' sec)).
+Proof. exact calls_recase_wf_call. Qed.
+Print Assumptions C14_calls_recase_wf_call.
+
+Theorem C14_calls_recase_wf_secrets : forall m with_ ss ss' c n,
+  wf_names ss -> map lower ss = map lower ss' ->
+  In (c, n) (check_workflow_call m (parse_wcall with_ (SecMap ss))) ->
+  exists n', lower n' = lower n /\ In (c, n') (check_workflow_call m (parse_wcall with_ (SecMap ss'))).
+Proof. exact calls_recase_wf_secrets. Qed.
+Print Assumptions C14_calls_recase_wf_secrets.
+
+Theorem C14_calls_recase_output : forall t r r', lower r = lower r' -> deref_reported t r = deref_reported t r'.
+Proof. exact calls_recase_output. Qed.
+Print Assumptions C14_calls_recase_output.
+
 (* ---- instances over the whole bundled data set (Gen/GenPopular.v) *)
 
 Theorem C14_popular_keys_lower :
